@@ -245,7 +245,14 @@ def handleHist (a : Args) : String :=
   let p : W.Pos := ⟨if emptyStart then W.firstFile else pB.file, unrelocOff fnext bias pB.offset⟩
   let E := extOf a
   let localCivil : Nat → Bytes := look [] (parseAssoc (arg a "civil"))
-  let txt : Nat → W.CellVal → Bytes := fun md v => W.text md localCivil E.fmtFloat32 E.fmtFloat64 v
+  -- jtext=<cell bytes hex>:<text hex>,…  — JSON columns: the cell travels pre-encoded (`.raw`: length prefix + the
+  -- document serialised by the Spec's JSON writer, obtained from the `jdoc` command); its canonical text is the
+  -- Spec's rendering of the document, carried here
+  let jtext : List (Bytes × Bytes) := (splitNE (arg a "jtext") ",").filterMap fun t =>
+    match t.splitOn ":" with | [k, v] => some (hb k, hb v) | _ => none
+  let txt : Nat → W.CellVal → Bytes := fun md v => match v with
+    | .raw b => (match jtext.find? (fun q => q.1 == b) with | some q => q.2 | none => b)
+    | _ => W.text md localCivil E.fmtFloat32 E.fmtFloat64 v
   let mix := argBool a "crcmix"
   let full : List W.Laid := if mix then layoutMix cfg h else W.layout cfg h
   let rest := W.fromPos full p
